@@ -28,6 +28,8 @@ RULE = (
     '[0, capacity]; users never exceed capacity. non-trivial = history in which a request had '
     'to wait; distinct = (type, history digest)'
 )
+RULE = RULE + (' Further: stateful filters, exception instances and None as items, several slots held by one process through nested with-blocks, blocks left by GeneratorExit.')
+
 LEVEL_TEXT = (
     'Exploration by runtime monitoring against executable models: after every time step of a '
     'generated operation history the state of the real resource is compared with a sequential '
